@@ -657,6 +657,17 @@ func TestVerif_C29(t *testing.T) {
 	if r.Counter("grid_removal_candidates")+r.Counter("history_removal_candidates") < 50 || r.Counter("grid_own_removal_refused")+r.Counter("history_own_removal_refused") < 50 {
 		r.Inconclusive("too few removal candidates were observed to judge the self-removal clause")
 	}
+	// elections on a running node after a removal stamped a little ahead of its clock must be the elections of a node
+	// set up later from the same records (all operations, instants after the record and on the following days)
+	verifAheadOfClock(t, r, "c29k", "C29|election|running-node-differs-from-a-node-set-up-later", func(f *verifFeed, q uint64) string {
+		var b []byte
+		for d := uint64(0); d < 3; d++ {
+			for _, o := range vC29Ops {
+				b = append(b, []byte(fmt.Sprintf("%s=%s;", o.name, f.node.electSnapshotNode(o.op, q+d*OneDay)))...)
+			}
+		}
+		return string(b)
+	})
 	r.Finish()
 }
 
